@@ -18,7 +18,8 @@ RULE = ('Grid: ping_interval {25, 1, 0.5, 1.5, 2.75, (25,5), (1.5,0.25), (10,0)}
         'OPEN with the handler sid, pingInterval == (interval+grace)*1000, pingTimeout == '
         'timeout*1000, maxPayload as configured; websocket advertised only if an upgrade would be '
         'accepted, and when advertised a conforming upgrade attempt completes; Set-Cookie iff '
-        'configured with name=sid and the configured attributes; rejecting outcomes answer 401 '
+        'configured with name=sid and the configured attributes; a second open on the same server '
+        'gets the same fields and cookie; rejecting outcomes answer 401 '
         'with the JSON value when truthy and the sid stays dead (KeyError, 400, no event after a '
         'long clock advance). quick: a seed-ordered quarter of the grid, thorough: all of it '
         '(exhaustive). Non-trivial: fractional or tuple interval, or restricted transports, or a '
@@ -275,6 +276,43 @@ def check_accepted(w, impl, r, c, hsid, ck_expect, rep, trig):
         raise V(impl, 'accepted-sid-not-addressable', trig, 'transport(): %r' % (t.exc,), rep)
     if len([e for e in w.app_log.events if e[1] == 'connect']) != 1:
         raise V(impl, 'more-than-one-session', trig, 'events %r' % (w.app_log.events,), rep)
+    # the configuration is still in force for the next client of the same server
+    if kind == 'polling' and (transports is None or 'polling' in transports):
+        w.app_log.connect_sends = []
+        r2 = w.http('GET', 'transport=polling&EIO=4',
+                    headers=[('X-Verif-Open', '1'), ('Host', 'localhost')])
+        w.settle()
+        ids = [e[2] for e in w.app_log.events if e[1] == 'connect']
+        if not r2.done or r2.status != 200 or len(ids) != 2:
+            raise V(impl, 'second-open-differs', trig + '|not-answered',
+                    'second open: done=%s status=%s connects=%d' % (r2.done, r2.status, len(ids)),
+                    rep)
+        first2 = r2.resp_body.decode('utf-8').split(rm.SEP)[0]
+        try:
+            info2 = json.loads(first2[1:]) if first2[:1] == '0' else None
+        except ValueError:
+            info2 = None
+        if info2 is None or info2.get('sid') != ids[1]:
+            raise V(impl, 'second-open-differs', trig + '|open-packet',
+                    'second open answered %r (handler sid %r)' % (first2[:80], ids[1]), rep)
+        for key in ('pingInterval', 'pingTimeout', 'maxPayload', 'upgrades'):
+            if info2.get(key) != info.get(key):
+                raise V(impl, 'second-open-differs', '%s|%s' % (trig, key),
+                        'first open %s=%r, second open %r' % (key, info.get(key), info2.get(key)),
+                        rep)
+        sc2 = r2.header_all('Set-Cookie')
+        if ck_expect is None:
+            if sc2:
+                raise V(impl, 'second-open-differs', cookie + '|cookie-appeared',
+                        'second open Set-Cookie %r' % sc2, rep)
+        else:
+            ok = len(sc2) == 1
+            if ok:
+                kv2, attrs2 = parse_cookie(sc2[0])
+                ok = kv2 == '%s=%s' % (ck_expect[0], ids[1]) and attrs2 == ck_expect[1]
+            if not ok:
+                raise V(impl, 'second-open-differs', cookie + '|cookie',
+                        'second open Set-Cookie %r, configured %r' % (sc2, ck_expect), rep)
 
 
 def run_shard(ctx):
